@@ -271,7 +271,7 @@ def check(run):
                 good = isinstance(l, K) and int(l.v) == bit and isinstance(p, K) and int(p.v) == bit and rem(it, s) == 0
                 run.check(good, 'D5', f'Builder.{meth_s}/Slice.{meth_l}' if not good else f'{meth_s}[{bit}]', f'{bit} -> {vrepr(l)}', wb)
     # snake bytes: all chunk boundaries at several fill levels
-    for fill in (0, 8, 13, 1000):
+    for fill in (0, 8, 13, 1000, 1015, 1016, 1023):      # from 1016 bits on the head cell has no room for a byte: the whole string lives in the chain
         for ln_ in (0, 1, 126, 127, 128, 129, 254, 255, 300) if not thorough else list(range(0, 400, 7)) + [127, 128, 254, 255]:
             it = Interp(prog)
             payload = bytes((i * 7 + 3) % 256 for i in range(ln_))
